@@ -44,6 +44,7 @@ func runOne(t *testing.T, c *Case, src, sched *choice.Source, out *wproto.Out, i
 			out.Finding(id, f.Sig, "mismatch", f.Msg, c)
 		}
 	}
+	out.Trace(id, st.MapDep, []any{st.TraceHashes, st.Ops, st.Steps, st.Desc, src.Tape(), sched.Tape()}, []any{sigs, c.Kind})
 	out.End(id, sigs)
 	out.Count("evaluations", 1)
 	out.Count("kind."+c.Kind, 1)
